@@ -44,6 +44,8 @@ var supports = map[string][]support{
 			Why: "the generated Size adds SizeOf* terms and the generated MarshalTo calls Encode*: they agree only if every Encode* writes, and advances by, exactly the SizeOf* of its argument"},
 		{From: "C19", Rules: []string{"N-bytes", "N-write-advance"},
 			Why: "the generated Size counts key + length prefix + Size(child) for a nested message; EncodeNested has to place exactly those bytes"},
+		{From: "C09", Rules: []string{"H-cache-owner", "H-cache-final"},
+			Why: "the generated Size returns the cached value when there is one: a cache written by anything but Size, or holding something else than the value Size returned, makes Size disagree with the bytes Marshal writes"},
 	},
 	"C05": {
 		{From: "C16", Rules: []string{"G-batch-code"},
@@ -74,6 +76,10 @@ var supports = map[string][]support{
 			Why: "the generated Unmarshal retains exactly the bytes that (*Decoder).Skip returns for an unknown field"},
 		{From: "C03", Rules: []string{"*"}, Under: []string{"(*Decoder).Skip"},
 			Why: "Skip runs on every unknown field; an index it cannot justify is a panic or a wrong slice for some unknown field"},
+		{From: "C01", Rules: []string{"B-roundtrip", "E-key-shift"},
+			Why: "Skip finds the first byte of an unknown field by stepping back SizeOfTagKey(tag) bytes: the retained bytes are the field only if that helper equals the number of key bytes written, for every field-number class (the round-trip harnesses compare the two)"},
+		{From: "C09", Rules: []string{"H-cache-final"},
+			Why: "Size accounts for the unknown fields on every call only if the cached size is the returned one, unknown fields included"},
 	},
 	"C08": {
 		{From: "C01", Rules: []string{"D-leaf", "P-sibling", "P-valid", "P-exact", "O-range"},
